@@ -15,6 +15,11 @@ template class celma::common::FixedString< 65535>;
 template class celma::common::FixedString< 65536>;
 #endif
 
+template class celma::common::detail::FixedStringIterator< char, celma::common::FixedString< 10>>;
+template class celma::common::detail::FixedStringIterator< const char, const celma::common::FixedString< 10>>;
+template class celma::common::detail::FixedStringReverseIterator< char, celma::common::FixedString< 10>>;
+template class celma::common::detail::FixedStringReverseIterator< const char, const celma::common::FixedString< 10>>;
+
 namespace verif_driver {
 
 using celma::common::FixedString;
@@ -47,6 +52,8 @@ int drive( FixedString< 10>& a, const FixedString< 5>& s5, const FixedString< 20
    for (auto it = a.cbegin(); it != a.cend(); it++) r += *it;
    for (auto it = a.rbegin(); it != a.rend(); ++it) r += *it;
    for (auto it = a.crbegin(); it != a.crend(); it++) r += *it;
+   r += static_cast< int>( (a.end() - a.begin()) + (a.cend() - a.cbegin()) + (a.rend() - a.rbegin())
+      + (a.crend() - a.crbegin()));
 #ifdef VERIF_THOROUGH
    FixedString< 1>  f1;  FixedString< 2>  f2;  FixedString< 255>  f255;  FixedString< 256>  f256;
    FixedString< 65535>  f65535;  FixedString< 65536>  f65536;
